@@ -283,9 +283,7 @@ func c15Confinement(c *Ctx) {
 				continue
 			}
 			// error returns built from errors.New / fmt.Errorf are rejections
-			if onlyOrigins(r.Results[1], func(o string) bool {
-				return strings.HasPrefix(o, "call:errors.New") || strings.HasPrefix(o, "call:fmt.Errorf") || strings.HasPrefix(o, "call:github.com/pkg/errors.")
-			}) {
+			if constructedNonNil(unspill(r, r.Results[1]), r.Block(), 0) {
 				continue
 			}
 			n++
